@@ -49,10 +49,13 @@ _attempt = st.one_of(
     st.tuples(st.just("bad_plain"), st.sampled_from(["x", "y", "p", "t", "lst", "d"])),
     st.tuples(st.just("bad_ref"), st.sampled_from(["x", "y", "t", "lst"]), st.sampled_from(["p", "bind", "rx", "dep", "nlist"])),
     st.tuples(st.just("bad_ref"), st.sampled_from(["x", "y"]), st.sampled_from(["p", "bind", "rx", "dep"])),
-    st.tuples(st.just("constant"), st.sampled_from(["c", "r", "name", "sel"]), st.sampled_from(["plain", "ref"])),
+    st.tuples(st.just("constant"), st.sampled_from(["c", "r", "name", "sel"]), st.sampled_from(["plain", "ref", "ref_nothing_yet"])),
     # a Composite whose second component (or length) is invalid: the first, valid component must not be applied either
     st.tuples(st.just("bad_composite"), st.just("pq"), st.sampled_from(["second_invalid", "first_invalid", "too_long",
                                                                         "second_invalid_for_instance"])),
+    # the second component cannot be assigned at all (constant, read-only) or is given a reference whose current value is invalid
+    st.sampled_from([["bad_composite", "pc", "second_constant"], ["bad_composite", "pr", "second_readonly"],
+                     ["bad_composite", "px", "second_reference_invalid"]]),
     # a rejection that is neither ValueError nor TypeError: a folder that does not exist
     st.tuples(st.just("bad_path"), st.just("pth")),
 ).map(list)
@@ -238,7 +241,7 @@ def _execute_dynamic(case):
 
 def _ident(v, pn):
     """identity of a value for the snapshot; a Composite builds a new list on every read: its components' identities"""
-    return tuple(id(x) for x in v) if pn == "pq" else id(v)
+    return tuple(id(x) for x in v) if pn in ("pq", "pc", "pr", "px") else id(v)
 
 
 def _plain(n, k):
@@ -297,6 +300,8 @@ def execute(case):
     att = case["attempt"]
     route = case["route"]
     kind, name = att[0], att[1]
+    if kind == "constant" and att[2] == "ref_nothing_yet" and name not in ("c", "r"):
+        att = [kind, name, "ref"]
     if kind == "bad_plain":
         value = {"x": 5000, "y": -5000, "p": 99, "t": 5, "lst": "notalist", "d": [1]}[name]
     elif kind == "bad_ref":
@@ -319,7 +324,13 @@ def execute(case):
             value = src_p
     elif kind == "bad_composite":
         value = {"second_invalid": [7, 99], "first_invalid": [99, 7], "too_long": [3, 4, 5],
-                 "second_invalid_for_instance": [7, 8]}[att[2]]
+                 "second_invalid_for_instance": [7, 8], "second_constant": [7, 8], "second_readonly": [7, 8],
+                 "second_reference_invalid": [7, None]}[att[2]]
+        if att[2] == "second_reference_invalid":
+            import param as _param
+            value = [7, _param.bind(lambda a: 5000, srcs[0].param.v)]      # resolves to a number outside the bounds of x
+        if att[2] in ("second_constant", "second_readonly", "second_reference_invalid") and route not in ("attr", "update"):
+            route = "attr"
         if att[2] == "second_invalid_for_instance":
             # the second component is valid for the class but not under the bounds this instance has for it
             tgt.param.q.bounds = (0, 5)
@@ -330,6 +341,15 @@ def execute(case):
     else:
         if att[2] == "plain":
             value = {"c": 77, "r": 78, "name": "newname", "sel": 99}[name]
+        elif att[2] == "ref_nothing_yet" and name in ("c", "r"):
+            # a reference whose function produces no value right now (raises Skip)
+            import param as _param
+
+            def _nothing(v):
+                raise _param.Skip
+            value = _param.bind(_nothing, srcs[0].param.v)
+            if route not in ("attr", "update"):
+                route = "attr"
         else:
             value = srcs[0].param.v if name != "name" else srcs[0].param.s
     if kind == "bad_composite" and route in ("ctor", "subclass"):
@@ -436,7 +456,9 @@ def execute(case):
         bad.v, bad.w, bad.s = 1, 2, "ok"        # the rejected reference must not be live
     except Exception as e:  # noqa: BLE001
         res.fail("C02.rejected_reference_live", f"after the rejected {att!r}: updating its source raised {e!r}")
-    want_unlinked = {n: values_before[("T", n)] for n in T.param if n not in links}
+    # (a Composite is a view of its components: it follows a linked component)
+    views = {"pc": "c", "pr": "r", "px": "x"}
+    want_unlinked = {n: values_before[("T", n)] for n in T.param if n not in links and views.get(n) not in links}
     for n, (fn, deps) in links.items():
         want = fn(mv)
         if getattr(tgt, n) != want:
